@@ -1365,6 +1365,14 @@ def _rand_corrupt(rnd, w):
             pass
 
 
+def _converts(dt, v):
+    try:
+        dt(v)
+        return True
+    except Exception:
+        return False
+
+
 def random_history(arg):
     seed, nsteps, corrupting = arg
     rnd = random.Random(seed)
@@ -1414,7 +1422,10 @@ def random_history(arg):
             via = rnd.choice(['set', 'read'] + (['write'] if p in w.haswrite else []))
             if rnd.random() < 0.05:
                 # a value the datatype refuses: nothing changes (the parameter may go into error state)
-                w.change(p, rnd.choice([None, 'no value', [[[]]], {'?': 1}, 1e99]), None, via=via, refused=True)
+                # (only values that even the conversion refuses: assignments by the driver are not range checked)
+                cand = [v for v in (None, 'no value', [[[]]], {'?': 1}, 1e99) if not _converts(w.dts[p], v)]
+                if cand:
+                    w.change(p, rnd.choice(cand), None, via=via, refused=True)
             else:
                 w.change(p, rnd.choice(w.values[p]), _rand_plan(rnd), via=via, fail=rnd.random() < 0.08)
         elif r < 0.9:
